@@ -288,7 +288,8 @@ func c03Gen(dstKinds, srcKinds []string, strategies []dm.Strategy) func(t *rapid
 		o.Unions = false
 		o.LeafLists = true
 		if dst != "rs" {
-			o.CompoundKeys = false
+			// Go maps hold entries by one key; slices (and the struct stores' slices) hold compound keys as well
+			o.CompoundKeys = true
 			o.Types = []string{"int8", "int32", "int64", "uint16", "uint64", "decimal64", "string", "boolean"}
 		}
 		if strings.HasSuffix(dst, "-struct") {
@@ -342,7 +343,7 @@ var allStrategies = []dm.Strategy{dm.Upsert, dm.Insert, dm.Update}
 var c03Merge = hx.Register(&hx.Check[c03Case]{
 	Name: "c03-merge",
 	Rule: "schema (containers, nested lists, leaves with defaults, leaf-lists, choices) + universe tree; target and source are independent sub-samples of the universe (source leaves redrawn with p=1/2); strategy x entry point (root, container, list, list entry present in the target) x XFrom/XInto x source store {reference, JSON reader} x target store {reference, map-backed Reflect, map-backed Node, struct-backed Reflect, struct-backed Node}; oracle = harness keyed deep merge with conflict / not-found classes; non-trivial = an error is expected or the merge changes a non-empty target",
-	Gen:  c03Gen([]string{"rs", "rs", "reflect-map", "node-map", "reflect-struct", "node-struct"}, []string{"rs", "json"}, allStrategies),
+	Gen:  c03Gen([]string{"rs", "rs", "reflect-map", "node-map", "reflect-slice", "node-slice", "reflect-struct", "node-struct"}, []string{"rs", "json"}, allStrategies),
 	Run:  c03Run,
 })
 
